@@ -1,4 +1,4 @@
 SPECIFICATION Spec
-CONSTANTS N = 2 Users = {1,2,3} MaxOut = 3 MaxApps = 4 AsCoded = TRUE
+CONSTANTS N = 2 Users = {1,2,3} MaxOut = 3 MaxApps = 5 AsCoded = TRUE
 INVARIANTS ExclusiveUse PoolSound NoDangling NoLeak
 CHECK_DEADLOCK FALSE
